@@ -238,7 +238,7 @@ func (r *Report) Finish(verifDir string, start time.Time, seed int64) int {
 			samples = append(samples, o)
 		}
 	}
-	var funcs []string
+	funcs := []string{}
 	for f := range r.Funcs {
 		funcs = append(funcs, f)
 	}
